@@ -45,6 +45,8 @@ enum Kind {
     V1,
     V2,
     Partial,
+    PreviewV1, // validate_preview_intent_v1 (intent + signer public keys)
+    PreviewV2, // PreviewTransactionV2 (transaction intent + public key lists)
 }
 #[derive(Clone, Debug)]
 struct TxSpec {
@@ -92,6 +94,7 @@ enum Out {
     AcceptV1,
     AcceptV2 { start: u64, end: u64, min_ts: Option<i64>, max_ts: Option<i64> },
     Reject(String), // Coq term of type err
+    Panic,
     Unexpected(String),
 }
 
@@ -297,7 +300,7 @@ fn batches_for(spec: &TxSpec, hashes: &[SubintentHash]) -> Vec<IntentSignaturesV
 fn build_raw(spec: &TxSpec, salt: u64, pad: Option<usize>) -> Vec<u8> {
     let settings = permissive();
     match spec.kind {
-        Kind::V1 => {
+        Kind::V1 | Kind::PreviewV1 => {
             let s = &spec.root;
             let mut b = ManifestBuilder::new();
             for k in 0..s.refs {
@@ -321,6 +324,14 @@ fn build_raw(spec: &TxSpec, salt: u64, pad: Option<usize>) -> Vec<u8> {
                 blobs: blobs(s.blobs, salt, pad),
                 message: message_v1(&s.msg),
             };
+            if spec.kind == Kind::PreviewV1 {
+                let pi = PreviewIntentV1 {
+                    intent,
+                    signer_public_keys: (0..s.sigs).map(|i| key(1 + (i % 60)).public_key().into()).collect(),
+                    flags: PreviewFlags { use_free_credit: true, assume_all_signature_proofs: false, skip_epoch_check: false, disable_auth: false },
+                };
+                return manifest_encode(&pi).expect("encode");
+            }
             let ih = intent.prepare(&settings).expect("intent prepare").transaction_intent_hash();
             let signed = SignedIntentV1 {
                 intent,
@@ -333,7 +344,7 @@ fn build_raw(spec: &TxSpec, salt: u64, pad: Option<usize>) -> Vec<u8> {
             };
             tx.to_raw().expect("encode").to_vec()
         }
-        Kind::V2 => {
+        Kind::V2 | Kind::PreviewV2 => {
             let t = build_tree(spec, salt, pad);
             let intent = TransactionIntentV2 {
                 transaction_header: TransactionHeaderV2 {
@@ -344,6 +355,16 @@ fn build_raw(spec: &TxSpec, salt: u64, pad: Option<usize>) -> Vec<u8> {
                 root_intent_core: t.root_core,
                 non_root_subintents: NonRootSubintentsV2(t.subs),
             };
+            if spec.kind == Kind::PreviewV2 {
+                let keys = |n: usize, off: usize| -> Vec<PublicKey> { (0..n).map(|i| key(1 + ((off + i) % 60)).public_key().into()).collect() };
+                let nb = (spec.subs.len() as i32 + spec.batch_delta).max(0) as usize;
+                let pv = PreviewTransactionV2 {
+                    transaction_intent: intent,
+                    root_signer_public_keys: keys(spec.root.sigs, 3).into_iter().collect(),
+                    non_root_subintent_signer_public_keys: (0..nb).map(|i| if i < spec.subs.len() { keys(spec.subs[i].sigs, 7 * i) } else { vec![] }).collect(),
+                };
+                return pv.to_raw().expect("encode").to_vec();
+            }
             let ih = intent.prepare(&settings).expect("intent prepare").transaction_intent_hash();
             let signed = SignedTransactionIntentV2 {
                 transaction_intent: intent,
@@ -511,6 +532,32 @@ fn run_impl(kind: &Kind, raw: &[u8], validator: &TransactionValidator) -> (Out, 
                 }
             }
         }
+        Kind::PreviewV1 => {
+            let pi: PreviewIntentV1 = manifest_decode(raw).expect("decode preview intent");
+            #[allow(deprecated)]
+            match validator.validate_preview_intent_v1(pi) {
+                Ok(v) => {
+                    let refs = vec![v.intent.instructions.references.len()];
+                    (Out::AcceptV1, Some(refs))
+                }
+                Err(e) => (classify(e), None),
+            }
+        }
+        Kind::PreviewV2 => {
+            let raw = RawPreviewTransaction::from_vec(raw.to_vec());
+            match PreparedPreviewTransactionV2::prepare(&raw, validator.preparation_settings()) {
+                Err(e) => (prepare_err(e), None),
+                Ok(p) => {
+                    let ti = &p.transaction_intent;
+                    let mut refs = vec![ti.root_intent_core.instructions.references.len()];
+                    refs.extend(ti.non_root_subintents.subintents.iter().map(|s| s.intent_core.instructions.references.len()));
+                    match p.validate(validator) {
+                        Ok(v) => (range_out(&v.overall_validity_range), Some(refs)),
+                        Err(e) => (classify(e), Some(refs)),
+                    }
+                }
+            }
+        }
         Kind::Partial => {
             let raw = RawSignedPartialTransaction::from_vec(raw.to_vec());
             match PreparedSignedPartialTransactionV2::prepare(&raw, validator.preparation_settings()) {
@@ -529,7 +576,7 @@ fn run_impl(kind: &Kind, raw: &[u8], validator: &TransactionValidator) -> (Out, 
     }));
     match r {
         Ok(x) => x,
-        Err(m) => (Out::Unexpected(format!("panic: {}", m)), None),
+        Err(_) => (Out::Panic, None),
     }
 }
 
@@ -560,13 +607,13 @@ fn summarize(spec: &TxSpec, payload_len: usize, padded: bool) -> TxSum {
         payload_len,
         tip: spec.tip,
         root: match spec.kind {
-            Kind::V1 => {
+            Kind::V1 | Kind::PreviewV1 => {
                 let mut r = isum(&spec.root, None, false, padded);
                 r.children = 0;
                 r.instrs = spec.root.refs + spec.root.fillers;
                 r
             }
-            Kind::V2 => isum(&spec.root, None, false, padded),
+            Kind::V2 | Kind::PreviewV2 => isum(&spec.root, None, false, padded),
             Kind::Partial => isum(&spec.root, None, true, padded),
         },
         root_sigs: spec.root.sigs,
@@ -600,18 +647,20 @@ fn intent_coq(i: &IntentSum) -> String {
 }
 fn sum_coq(s: &TxSum) -> String {
     match s.kind {
-        Kind::V1 => format!(
-            "(T1 (Build_tx_v1 {} (Build_header_v1 {} {} {} {}) {} {} {} {} {}))",
+        Kind::V1 | Kind::PreviewV1 => format!(
+            "({} (Build_tx_v1 {} (Build_header_v1 {} {} {} {}) {} {} {} {} {}))",
+            if s.kind == Kind::V1 { "T1" } else { "T1P" },
             s.payload_len, s.root.network, s.root.start, s.root.end, s.tip, msg_coq(&s.root.msg), s.root.refs, s.root.instrs, s.root.blobs, s.root_sigs
         ),
         _ => format!(
-            "(T2 (Build_tx_v2 {} {} {} {} {} {}))",
+            "(T2 (Build_tx_v2 {} {} {} {} {} {} {}))",
             s.payload_len,
-            if s.kind == Kind::V2 { format!("(Some {})", s.tip) } else { "None".to_string() },
+            if s.kind != Kind::Partial { format!("(Some {})", s.tip) } else { "None".to_string() },
             intent_coq(&s.root),
             s.root_sigs,
             coq_list(s.subs.iter().map(intent_coq)),
-            coq_list(s.batches.iter().map(|b| b.to_string()))
+            coq_list(s.batches.iter().map(|b| b.to_string())),
+            coq_bool(s.kind == Kind::PreviewV2)
         ),
     }
 }
@@ -620,6 +669,7 @@ fn out_coq(o: &Out) -> String {
         Out::AcceptV1 => "AcceptV1".into(),
         Out::AcceptV2 { start, end, min_ts, max_ts } => format!("(AcceptV2 (Build_range {} {} {} {}))", start, end, optz(min_ts), optz(max_ts)),
         Out::Reject(e) => format!("(Reject {})", e),
+        Out::Panic => "PanicDepthUnderflow".into(),
         // never produced by the model on a case the oracle accepts as in-model: shows as disagreement
         Out::Unexpected(_) => "(Reject (TooManyInstructions (NonRoot 999999)))".into(),
     }
@@ -648,11 +698,12 @@ fn within(c: &TransactionValidationConfig, net: Option<u8>, t: &TxSum) -> (bool,
     let p = &c.preparation_settings;
     let net_ok = |n: u8| net.map(|r| r == n).unwrap_or(true);
     match t.kind {
-        Kind::V1 => {
+        Kind::V1 | Kind::PreviewV1 => {
             let r = &t.root;
-            let ok = t.payload_len <= p.max_user_payload_length
+            let pv = t.kind == Kind::PreviewV1; // preview: nothing about the payload length or signatures
+            let ok = (pv || t.payload_len <= p.max_user_payload_length)
                 && r.blobs <= p.max_blobs
-                && t.root_sigs <= c.max_signer_signatures_per_intent
+                && (pv || t.root_sigs <= c.max_signer_signatures_per_intent)
                 && net_ok(r.network)
                 && epoch_within(c, r.start, r.end)
                 && (c.min_tip_percentage as u32) <= t.tip
@@ -661,21 +712,23 @@ fn within(c: &TransactionValidationConfig, net: Option<u8>, t: &TxSum) -> (bool,
                 && r.refs <= c.max_references_per_intent
                 && r.instrs <= c.max_instructions
                 && r.refs <= c.max_total_references
-                && t.root_sigs + 1 <= c.max_total_signature_validations;
+                && (pv || t.root_sigs + 1 <= c.max_total_signature_validations);
             (ok, None)
         }
         _ => {
             let all: Vec<&IntentSum> = std::iter::once(&t.root).chain(t.subs.iter()).collect();
-            let is_tx = t.kind == Kind::V2;
+            let is_tx = t.kind != Kind::Partial;
+            let pv = t.kind == Kind::PreviewV2;
             let start = all.iter().map(|i| i.start).max().unwrap();
             let end = all.iter().map(|i| i.end).min().unwrap().min(u64::MAX);
             let min_ts = all.iter().filter_map(|i| i.min_ts).max();
             let max_ts = all.iter().filter_map(|i| i.max_ts).min();
-            let ok = (!is_tx || t.payload_len <= p.max_user_payload_length)
+            let ok = (!is_tx || pv || t.payload_len <= p.max_user_payload_length)
+                && (is_tx || c.max_subintent_depth != 0)
                 && p.v2_transactions_permitted
                 && all.iter().all(|i| i.blobs <= p.max_blobs && i.children <= p.max_child_subintents_per_intent)
                 && t.subs.len() <= p.max_subintents_per_transaction
-                && t.batches.len() <= p.max_subintents_per_transaction
+                && (pv || t.batches.len() <= p.max_subintents_per_transaction)
                 && c.v2_transactions_allowed
                 && t.root_sigs <= c.max_signer_signatures_per_intent
                 && t.subs.len() == t.batches.len()
@@ -720,6 +773,7 @@ fn verdict_tag(o: &Out) -> String {
     match o {
         Out::AcceptV1 | Out::AcceptV2 { .. } => "accept".into(),
         Out::Unexpected(w) => format!("unexpected {}", w),
+        Out::Panic => "panic".into(),
         Out::Reject(e) => {
             let inner = e.trim_start_matches('(').trim_end_matches(')').replace("(NonRoot ", "NonRoot_").replace(')', "");
             let toks: Vec<&str> = inner.split(' ').filter(|t| !t.is_empty() && !t.chars().all(|c| c.is_ascii_digit())).collect();
@@ -1115,6 +1169,64 @@ fn boundary_family() -> Vec<BCase> {
     add("v2_payload_1mib_plus1", l, n, v2l(&|t| t.payload_target = Some(1024 * 1024 + 1)), "PrepareTransactionTooLarge");
     add("v2_blobs_64", l, n, v2l(&|t| t.root.blobs = 64), "accept");
     add("v2_blobs_65", l, n, v2l(&|t| t.root.blobs = 65), "PrepareTooManyValues VBlob");
+
+    // ======================= configured subintent depth 0 with V2 enabled =======================
+    let d0 = "variant_depth0";
+    add("depth0_v2_without_subintents", d0, n, v2l(&|_| {}), "accept");
+    add("depth0_partial_underflow", d0, n, { let mut t = v2l(&|_| {}); t.kind = Kind::Partial; t }, "panic");
+    add("depth0_partial_underflow_after_counts", d0, n, { let mut t = v2l(&|t| t.root.sigs = 17); t.kind = Kind::Partial; t }, "TooManySignatures Root");
+    add("depth0_partial_underflow_before_header", d0, n, { let mut t = v2l(&|t| t.root.network = 7); t.kind = Kind::Partial; t }, "panic");
+    add("depth0_preview_without_subintents", d0, n, { let mut t = v2l(&|_| {}); t.kind = Kind::PreviewV2; t }, "accept");
+    add("depth0_babylon_partial_not_permitted", "babylon", n, { let mut t = v2l(&|_| {}); t.kind = Kind::Partial; t }, "PrepareTransactionTypeNotSupported");
+
+    // ======================= preview entry points =======================
+    // validate_preview_intent_v1: no payload limit, nothing about signer keys; the intent's own limits apply
+    let pv1 = |f: &dyn Fn(&mut IntentSpec)| {
+        let mut r = ispec(100, 105);
+        r.sigs = 1;
+        f(&mut r);
+        tspec(Kind::PreviewV1, 2, r, vec![])
+    };
+    add("preview_v1_base", s, n, pv1(&|_| {}), "accept");
+    add("preview_v1_signer_keys_over_limit_ignored", s, n, pv1(&|r| r.sigs = 9), "accept");
+    add("preview_v1_no_signer_keys", s, n, pv1(&|r| r.sigs = 0), "accept");
+    add("preview_v1_totals_ignore_signers", st, n, pv1(&|r| r.sigs = 3), "accept");
+    add("preview_v1_payload_over_limit_ignored", s, n, { let mut t = pv1(&|_| {}); t.payload_target = Some(7000); t }, "accept");
+    add("preview_v1_blobs_2", s, n, pv1(&|r| r.blobs = 2), "accept");
+    add("preview_v1_blobs_3", s, n, pv1(&|r| r.blobs = 3), "PrepareTooManyValues VBlob");
+    add("preview_v1_network_wrong", s, n, pv1(&|r| r.network = 7), "HeaderError Root InvalidNetwork");
+    add("preview_v1_epoch_range_at", s, n, pv1(&|r| r.end = 150), "accept");
+    add("preview_v1_epoch_range_plus1", s, n, pv1(&|r| r.end = 151), "HeaderError Root InvalidEpochRange");
+    add("preview_v1_tip_10", s, n, { let mut t = pv1(&|_| {}); t.tip = 10; t }, "HeaderError Root InvalidTip");
+    add("preview_v1_mime_7", s, n, pv1(&|r| r.msg = Msg::Plain { mime: 7, msg: 0, bytes: false }), "MessageError Root MimeTypeTooLong");
+    add("preview_v1_refs_4", s, n, pv1(&|r| r.refs = 4), "accept");
+    add("preview_v1_refs_5", s, n, pv1(&|r| r.refs = 5), "TooManyReferences Root");
+    add("preview_v1_refs_total_over", st, n, pv1(&|r| r.refs = 4), "TooManyReferences Across");
+    add("preview_v1_instructions_12", s, n, pv1(&|r| r.fillers = 12), "accept");
+    add("preview_v1_instructions_13", s, n, pv1(&|r| r.fillers = 13), "TooManyInstructions Root");
+    add("preview_v1_latest_base", l, n, { let mut t = pv1(&|_| {}); t.tip = 0; t }, "accept");
+    add("preview_v1_babylon_base", "babylon", n, { let mut t = pv1(&|_| {}); t.tip = 0; t }, "accept");
+    // PreviewTransactionV2: key counts are limited like signatures, the notary counts 1, no payload / batch-array limit at preparation
+    let pv2 = |f: &dyn Fn(&mut TxSpec)| {
+        let mut t = v2(&|_| {});
+        t.kind = Kind::PreviewV2;
+        f(&mut t);
+        t
+    };
+    add("preview_v2_base", s, n, pv2(&|_| {}), "accept");
+    add("preview_v2_root_keys_3", s, n, pv2(&|t| t.root.sigs = 3), "accept");
+    add("preview_v2_root_keys_4", s, n, pv2(&|t| t.root.sigs = 4), "TooManySignatures Root");
+    add("preview_v2_batch_keys_4", s, n, pv2(&|t| t.subs = vec![sub(&|_| {}), sub(&|x| x.sigs = 4)]), "TooManySignatures NonRoot_1");
+    add("preview_v2_total_at", s, n, pv2(&|t| { t.root.sigs = 3; t.subs = vec![sub(&|x| x.sigs = 3), sub(&|x| x.sigs = 1)]; }), "accept");
+    add("preview_v2_total_over", s, n, pv2(&|t| { t.root.sigs = 3; t.subs = vec![sub(&|x| x.sigs = 3), sub(&|x| x.sigs = 2)]; }), "TooManySignatures Across");
+    add("preview_v2_batches_one_missing", s, n, pv2(&|t| { t.subs = vec![sub(&|_| {})]; t.batch_delta = -1; }), "IncorrectNumberOfSubintentSignatureBatches");
+    add("preview_v2_batches_4_not_limited_at_prepare", s, n, pv2(&|t| { t.subs = vec![sub(&|_| {}), sub(&|_| {}), sub(&|x| x.parent = Some(0))]; t.batch_delta = 1; }), "IncorrectNumberOfSubintentSignatureBatches");
+    add("preview_v2_payload_over_limit_ignored", s, n, pv2(&|t| t.payload_target = Some(7000)), "accept");
+    add("preview_v2_tip_41", s, n, pv2(&|t| t.tip = 41), "HeaderError Root InvalidTip");
+    add("preview_v2_subintents_4", s, n, pv2(&|t| t.subs = vec![sub(&|_| {}), sub(&|_| {}), sub(&|x| x.parent = Some(0)), sub(&|x| x.parent = Some(0))]), "PrepareTooManyValues VSubintent");
+    add("preview_v2_across_epochs_touching", s, n, pv2(&|t| t.subs = vec![sub(&|x| { x.start = 105; x.end = 110; })]), "HeaderError NonRoot_0 NoValidEpochRangeAcrossAllIntents");
+    add("preview_v2_not_permitted", "babylon", n, pv2(&|t| t.tip = 0), "PrepareTransactionTypeNotSupported");
+    add("preview_v2_not_allowed", "variant_babylon_v2_disallowed", n, pv2(&|t| t.tip = 0), "TransactionVersionNotPermitted");
     v
 }
 
@@ -1165,6 +1277,12 @@ fn config_named(name: &str) -> TransactionValidationConfig {
             if name == "variant_babylon_v2_disallowed" {
                 c.v2_transactions_allowed = false;
             }
+            c
+        }
+        "variant_depth0" => {
+            // V2 enabled with a configured subintent depth of 0 (no shipped configuration has this)
+            let mut c = TransactionValidationConfig::latest();
+            c.max_subintent_depth = 0;
             c
         }
         other => panic!("unknown config {}", other),
@@ -1218,15 +1336,17 @@ fn base_intent(rng: &mut Rng, c: &TransactionValidationConfig) -> IntentSpec {
 }
 
 fn gen_spec(rng: &mut Rng, c: &TransactionValidationConfig, tags: &mut Vec<String>) -> TxSpec {
-    let kind = match rng.below(10) {
+    let kind = match rng.below(13) {
         0..=3 => Kind::V1,
         4..=7 => Kind::V2,
-        _ => Kind::Partial,
+        8 | 9 => Kind::Partial,
+        10 => Kind::PreviewV1,
+        _ => Kind::PreviewV2,
     };
     let p = c.preparation_settings;
     let mut root = base_intent(rng, c);
     let mut subs: Vec<IntentSpec> = vec![];
-    if kind != Kind::V1 {
+    if kind != Kind::V1 && kind != Kind::PreviewV1 {
         let n = match rng.below(6) {
             0..=2 => 0,
             3 => 1,
@@ -1260,7 +1380,7 @@ fn gen_spec(rng: &mut Rng, c: &TransactionValidationConfig, tags: &mut Vec<Strin
         }
     }
     let tip = match kind {
-        Kind::V1 => rng.range(c.min_tip_percentage as u64, (c.max_tip_percentage as u64).min(c.min_tip_percentage as u64 + 5)) as u32,
+        Kind::V1 | Kind::PreviewV1 => rng.range(c.min_tip_percentage as u64, (c.max_tip_percentage as u64).min(c.min_tip_percentage as u64 + 5)) as u32,
         _ => rng.range(c.min_tip_basis_points as u64, (c.max_tip_basis_points as u64).min(c.min_tip_basis_points as u64 + 5)) as u32,
     };
     let mut spec = TxSpec { kind: kind.clone(), tip, root: root.clone(), subs, batch_delta: 0, payload_target: None };
@@ -1342,7 +1462,7 @@ fn gen_spec(rng: &mut Rng, c: &TransactionValidationConfig, tags: &mut Vec<Strin
             }
             7 => {
                 spec.tip = match kind {
-                    Kind::V1 => match rng.below(4) {
+                    Kind::V1 | Kind::PreviewV1 => match rng.below(4) {
                         0 => (c.min_tip_percentage as u32).saturating_sub(1),
                         1 => c.min_tip_percentage as u32,
                         2 => c.max_tip_percentage as u32,
@@ -1472,7 +1592,7 @@ fn gen_spec(rng: &mut Rng, c: &TransactionValidationConfig, tags: &mut Vec<Strin
                     tags.push("instructions".into());
                 }
             }
-            20 if kind != Kind::V1 => {
+            20 if kind != Kind::V1 && kind != Kind::PreviewV1 => {
                 // number of subintents / children around the preparation limits
                 let want = around(rng, p.max_subintents_per_transaction, 40);
                 let mut v = vec![];
@@ -1489,7 +1609,7 @@ fn gen_spec(rng: &mut Rng, c: &TransactionValidationConfig, tags: &mut Vec<Strin
                 spec.subs = v;
                 tags.push("subintent_count".into());
             }
-            21 if kind != Kind::V1 => {
+            21 if kind != Kind::V1 && kind != Kind::PreviewV1 => {
                 let want = around(rng, p.max_child_subintents_per_intent, 40).min(p.max_subintents_per_transaction.min(40));
                 let mut v = vec![];
                 for _ in 0..want {
@@ -1502,7 +1622,7 @@ fn gen_spec(rng: &mut Rng, c: &TransactionValidationConfig, tags: &mut Vec<Strin
                 spec.subs = v;
                 tags.push("children_count".into());
             }
-            22 if kind != Kind::V1 => {
+            22 if kind != Kind::V1 && kind != Kind::PreviewV1 => {
                 spec.batch_delta = if rng.bool() { 1 } else { -1 };
                 tags.push("batch_count".into());
             }
@@ -1594,6 +1714,7 @@ fn main() {
             Out::AcceptV1 | Out::AcceptV2 { .. } => "accept".to_string(),
             Out::Reject(e) => format!("reject_{}", e.trim_start_matches('(').split(' ').next().unwrap()),
             Out::Unexpected(_) => "unexpected".to_string(),
+            Out::Panic => "panic".to_string(),
         };
         report.count(&format!("out_{}", okind));
         let input = json!({"config": cfg_name, "config_coq": config_coq(&cfg), "net": net, "summary": sum_coq(&sum), "fields": tags, "out": format!("{:?}", out)});
@@ -1609,6 +1730,9 @@ fn main() {
                 report.oracle_failure(i, "", &format!("result outside the modelled checks (generator should avoid it): {}", what), input.clone())
             }
             _ => {
+                if out == Out::Panic && !(spec.kind == Kind::Partial && cfg.max_subintent_depth == 0) {
+                    report.oracle_failure(i, "", "panic outside the configured-depth-0 corner", input.clone());
+                }
                 let (ok, range) = within(&cfg, net, &sum);
                 let accepted = matches!(out, Out::AcceptV1 | Out::AcceptV2 { .. });
                 if accepted && !ok {
